@@ -55,6 +55,17 @@ func (v *VerifC35Conn) Race(streamID uint32, finish func(), writeClient func()) 
 	sc := v.sc
 	res := make(chan int, 1)
 	fn := func(int) {
+		// first let every write that is still in flight (e.g. the flush after the last PING ack)
+		// complete, exactly as the select loop would
+		for sc.writingFrame {
+			select {
+			case r := <-sc.wroteFrameCh:
+				sc.wroteFrame(r)
+			case <-time.After(5 * time.Second):
+				res <- -7
+				return
+			}
+		}
 		finish()
 		go writeClient()
 		var wm frameWriteMsg
